@@ -29,7 +29,7 @@ Definition node_ident (id : N) : list tok := ident ("__PATTERN_NODE_" ++ N_to_st
 Definition pp_field_name (f : field_name) : list tok :=
   match f with
   | FIdent s sp => [TIdent s sp]
-  | FIndex n => [TLit (N_to_string n) SCall]         (* syn::Index: unsuffixed literal *)
+  | FIndex n sp => [TLit (N_to_string n) sp]         (* syn::Index: unsuffixed literal, spanned like the index as written *)
   end.
 
 (* the binding a destructured field is given: a reserved name derived from the field,
@@ -39,7 +39,7 @@ Definition strip_raw (s : string) : string :=
 Definition field_binder_str (f : field_name) : string :=
   "__assert_struct_f_" ++ strip_raw (field_name_str f).
 Definition pp_field_binder (f : field_name) : list tok :=
-  [TIdent (field_binder_str f) (match f with FIdent _ sp => sp | FIndex _ => SCall end)].
+  [TIdent (field_binder_str f) (match f with FIdent _ sp => sp | FIndex _ sp => sp end)].
 
 Fixpoint pp_vexpr (e : vexpr) : list tok :=
   match e with
@@ -53,7 +53,7 @@ Fixpoint pp_vexpr (e : vexpr) : list tok :=
       tpl sp "$0 . $1 ( $2 )" [pp_vexpr x; [TIdent m msp]; sep_by (tpl sp "," []) (map u_toks args)]
   | VAwait sp x => tpl sp "$0 . await" [pp_vexpr x]
   | VNamed sp x f fsp => tpl sp "$0 . $1" [pp_vexpr x; [TIdent f fsp]]
-  | VUnnamed sp x i => tpl sp "$0 . $1" [pp_vexpr x; [TLit (N_to_string i) SCall]]
+  | VUnnamed sp x i => tpl sp "$0 . $1" [pp_vexpr x; [TLit (N_to_string i) sp]]
   | VIndex sp x i => tpl sp "$0 [ $1 ]" [pp_vexpr x; u_toks i]
   end.
 
